@@ -364,6 +364,13 @@ def run(ctx):
                 break
         ctx.require(n_pairs >= 2, 'CODEC-ID: no comparable arms between %s and %s' % (wname, rnames))
 
+    ctx.rule('WIDE-PRODUCT', 'an int that was computed from a 64-bit length or position (a block count, a block index) grows with the size of the file: at every conversion int -> 64 bit whose operand is '
+             '32-bit arithmetic with a product that has such a factor, A-PENT bounds the product within the 32-bit type - otherwise the frame count stored in sf.frames, the byte offset handed to '
+             'psf_fseek or the position returned by a codec seek has wrapped before it was widened (a WAV / IMA ADPCM file of 2^31 frames is 1 GB: it could not be opened again)', floor=40)
+    from engine.widearith import wide_product
+    n_wp = wide_product(ctx, prog, eff)
+    ctx.require(n_wp >= 40, 'only %d widened 32-bit products found' % n_wp)
+
     from rules.C01 import varint_rule
     varint_rule(ctx, prog)
 
